@@ -336,13 +336,54 @@ def encode_obligations():
              "info": f"all {len(rets)} return statements are mdurl.encode(...)" if rets and not bad else f"returns without encoding at line(s) {[r.lineno for r in bad]}", "witness": ""}]
 
 
+def facade_obligations():
+    """LANG/<MarkdownIt method>/delegates: the typestate argument treats `state.md.normalizeLink` / `validateLink` as the
+    functions of common.normalize_url; so every return of the three MarkdownIt methods must be exactly that call on the
+    method's own argument (a fast path that returns the url untouched would bypass the encoder)"""
+    obs = []
+    for meth, arg in (("normalizeLink", "url"), ("validateLink", "url"), ("normalizeLinkText", "link")):
+        q = f"markdown_it.main.MarkdownIt.{meth}"
+        try:
+            mi, fn, canon = S.resolve_function(q)
+        except S.SourceError as e:
+            obs.append({"oid": f"{q}/LANG/delegates", "verdict": "undecided", "func": q, "info": str(e)})
+            continue
+        rets = [n for n in ast.walk(fn) if isinstance(n, ast.Return)]
+        want = f"normalize_url.{meth}({fn.args.args[1].arg})" if len(fn.args.args) == 2 else None
+        stores = [n for n in ast.walk(fn) if isinstance(n, (ast.Assign, ast.AugAssign, ast.AnnAssign, ast.NamedExpr))]
+        bad = [r for r in rets if r.value is None or ast.unparse(r.value) != want]
+        ok = bool(rets) and not bad and not stores and want is not None
+        witness = ""
+        if not ok and meth != "normalizeLinkText":
+            try:
+                from markdown_it import MarkdownIt
+                from markdown_it.common import normalize_url as NU
+
+                md = MarkdownIt()
+                for w in ("\x01javascript:alert(1)", "javascript:x", "\x0bvbscript:x", "a b", "http://a/\x7f", "JaVaScRiPt:x", "\x1fdata:text/html,x", "http://ä.b/ü"):
+                    if getattr(md, meth)(w) != getattr(NU, meth)(w):
+                        witness = w
+                        break
+            except Exception:  # noqa: BLE001
+                pass
+        obs.append({"oid": f"{canon}/LANG/delegates", "verdict": "discharged" if ok else "failed", "func": canon,
+                    "info": f"every return is {want}" if ok else f"not a plain delegation to normalize_url.{meth}: returns {[ast.unparse(r.value) if r.value else None for r in bad][:3]}",
+                    "witness": witness})
+    return obs
+
+
 def add_url_obligations(rep, prop):
-    allobs = typestate_obligations() + validate_obligations() + encode_obligations()
+    allobs = typestate_obligations() + validate_obligations() + encode_obligations() + facade_obligations()
     for o in allobs:
         kind = "TYPESTATE" if "/TYPESTATE/" in o["oid"] else "LANG"
         rep.obs.append(Ob(oid=f"{prop}/{o['oid']}", kind=kind, func=o["func"], backend="typestate" if kind == "TYPESTATE" else "lang", verdict=o["verdict"], info=o["info"],
                           line=o.get("line", 0), seconds=o.get("seconds", 0.0), model=o.get("witness", ""), solver="path-sensitive abstract interpretation" if kind == "TYPESTATE" else "z3-regex"))
-        if o["verdict"] == "failed" and kind == "LANG" and o.get("witness") and "validateLink" in o["oid"]:
+        if o["verdict"] == "failed" and kind == "LANG" and "/LANG/delegates" in o["oid"]:
+            w = o.get("witness")
+            rep.replays[f"{prop}/{o['oid']}"] = {"lifted": {"constructor": "candidate url", "arguments": {"url": w}} if w else {},
+                                                 "observed": {"outcome": "returned", "note": "MarkdownIt method and normalize_url function disagree on this url" if w else "no disagreeing url among the candidates"},
+                                                 "replayed": bool(w)}
+        elif o["verdict"] == "failed" and kind == "LANG" and o.get("witness") and "validateLink" in o["oid"]:
             # replay the solver's witness on the real function
             try:
                 from markdown_it.common.normalize_url import validateLink
